@@ -8,8 +8,8 @@ CHECKS = {
  "C19": dict(
    category="model_checking", design_ref="DESIGN.md §3 C19",
    technique="TLA+ reference dictionary (OrderedMap.tla), TLC state-graph dump, every path replayed on the real containers",
-   text="OrderedMap.tla is the reference insertion-ordered dictionary; TLC checks its design invariants (order is a permutation of the keys, relative order stable) and dumps the complete labelled state graph (79 states, 3 keys x 2 values). The harness replays, from every state, every action sequence up to a bound (plus seeded random walks) on the real RuleASTNodes/ASTNodes/Constraints/StringSet and compares Len, Has/Get, Each/EachSafe/Find order and MarshalJSON with the model state.",
-   note="Small-scope: 3 keys, 2 values (the container code never looks inside keys or values). TLC, the DOT dump and the harness's observation code are trusted. Constraints.MarshalJSON is not compared."),
+   text="OrderedMap.tla is the reference insertion-ordered dictionary; TLC checks its design invariants (order is a permutation of the keys, relative order stable) and dumps the complete labelled state graph (79 states, 3 keys x 2 values); OrderedMap_sim.cfg adds TLC-simulated behaviours over six keys (long enough for the containers to grow and shrink). The harness replays, from every state, every action sequence up to a bound, seeded random walks and the simulated behaviours on the real RuleASTNodes/ASTNodes/Constraints/StringSet (six constructions incl. pre-sized maps) and compares Len, Has/Get, Each/EachSafe/Find order and MarshalJSON with the model state after every step.",
+   note="Small-scope: 3 keys exhaustively, 6 keys by simulation, 2 values (the container code never looks inside keys or values). TLC, the DOT dump and the harness's observation code are trusted. Constraints.MarshalJSON is not compared."),
  "C12": dict(
    category="model_checking", design_ref="DESIGN.md §3 C12",
    technique="TLA+ reference automaton (JsonDoc.tla) checked equal to an independent TLA+ grammar; TLC graph dump walked against formats/json (all strings <= N, W-method, random walks) and recorded traces validated by TLC (JsonDocTrace)",
@@ -18,7 +18,7 @@ CHECKS = {
  "C13": dict(
    category="model_checking", design_ref="DESIGN.md §3 C13",
    technique="TLA+ number recogniser + normal-form order (Number.tla) with TLC-checked lemma Norm order = exact order; recogniser graph walked against NewNumber; recorded Cmp/Equal/String observations validated by TLC (NumberTrace)",
-   text="Number.tla gives the JSON number grammar as a recogniser and the denotation as a digit-sequence normal form; TLC checks NormOrderCorrect/Antisymmetric/ZeroHasNoSign on all pairs of accepted texts up to length 4 with exact integer arithmetic. All strings up to length 7/9 over the number alphabet are compared with NewNumber's verdict; tens of thousands of num/cmp observations (small exhaustive set pairs, thousand-digit numbers respelled with exponent shifts up to 2500, last-digit neighbours) are validated line by line by TLC.",
+   text="Number.tla gives the JSON number grammar as a recogniser and the denotation as a digit-sequence normal form; TLC checks NormOrderCorrect/Antisymmetric/ZeroHasNoSign on all pairs of accepted texts up to length 4 with exact integer arithmetic. All strings up to length 7/9 over the number alphabet are compared with NewNumber's verdict; tens of thousands of num/cmp observations (small exhaustive set pairs, thousand-digit numbers respelled with exponent shifts up to 2500, last-digit neighbours, and for every digit length up to 40 and every machine word size the smallest/largest/neighbouring numbers in all pairs, both signs, with and without fraction) are validated line by line by TLC.",
    note="Trusted: TLC and SequencesExt overrides. Exponents beyond +-2500 are outside the value oracle. Known finding: '0e5' rejected (pinned by the repository's own test)."),
  "C18": dict(
    category="model_checking", design_ref="DESIGN.md §3 C18",
@@ -28,42 +28,42 @@ CHECKS = {
  "C20": dict(
    category="model_checking", design_ref="DESIGN.md §3 C20",
    technique="TLA+ vocabulary model (TypeVocab.tla): TLC checks reflexivity/symmetry/exact families and emits every pair and literal with its expectation; all emitted cases replayed on type.go / json.Guess",
-   text="TypeVocab.tla states the documented families; TLC checks Reflexive, Symmetric, UndefinedUnrelated, ExactlyFamilies over all 17x17 pairs and emits each pair with SoftEq, every accepted number literal up to length 5/7 with its kind, and the vocabulary tables. The harness replays all of them: IsEqualSoft, IsValidType (names and near misses), IsScalar, token-type agreement of schema and JSON types, GuessSchemaType 60x per literal against the scanner's classifier.",
+   text="TypeVocab.tla states the documented families; TLC checks Reflexive, Symmetric, UndefinedUnrelated, ExactlyFamilies over all 17x17 pairs and emits each pair with SoftEq, every accepted number literal up to length 5/7 with its kind, every quoted text of up to three pieces out of 13 (plain characters, language punctuation, every escape kind: 2380 string literals) and the vocabulary tables. The harness replays all of them: IsEqualSoft, IsValidType (names and near misses), IsScalar, token-type agreement of schema and JSON types, GuessSchemaType 60x per literal against the scanner's classifier.",
    note="The 'comment' type is outside the domain. Known finding: null~array one-directional (pinned by the repository's table-derived test)."),
  "C17": dict(
    category="model_checking", design_ref="DESIGN.md §3 C17",
    technique="TLA+ token-level reference (EnumRule.tla), TLC graph dump, token paths printed to text and replayed on rules/enum and on schemas using the rule by name vs inline",
-   text="EnumRule.tla defines acceptance (bracketed list of distinct non-exponent scalars, annotations where the repository's tests place them), the value list and the duplicate relation over a 12-scalar catalogue (\"1\" vs 1, \"a\" vs \"\\u0061\", 1.0 vs 1, -0, 1e2 ...). TLC checks that an accepted prefix never holds duplicates and dumps the 13.6k-state graph; the harness replays the access sequence of every state followed by every token sequence <= k and seeded random walks (Check, Values with kinds), and for every distinct accepted item list compares `v // {enum: @rule}` with `v // {enum: [list]}` (verdict, error code, example) and with membership for every catalogue value.",
+   text="EnumRule.tla defines acceptance (bracketed list of distinct non-exponent scalars, annotations where the repository's tests place them), the value list and the duplicate relation over a 19-scalar catalogue (\"1\" vs 1, \"a\" vs \"\\u0061\", 1.0 vs 1, -0, 1e2, -1 vs \"-1\", false vs \"true\" ...) explored in two halves. TLC checks that an accepted prefix never holds duplicates and dumps the two graphs (13.6k + 12k states); the harness replays the access sequence of every state followed by every token sequence <= k and seeded random walks (Check, Values with kinds), and for every distinct accepted item list compares `v // {enum: @rule}` with `v // {enum: [list]}` (verdict, error code, example) and with membership for every catalogue value; one annotated rule object is also shared by many schemas and its Values()/GetAST() re-read afterwards.",
    note="Annotation placements outside those shown by the repository's tests, the empty list and merged number tokens have no verdict (counted inconclusive). Comment-only entries of Values() are ignored."),
  "C10": dict(
    category="model_checking", design_ref="DESIGN.md §3 C10",
    technique="TLA+ model of the public API as a system (SchemaApi.tla) enumerated by TLC into call histories replayed on the real library; pool refinement (Pools.tla) model-checked; pool events recorded through verif hooks validated by TLC (PoolsTrace)",
-   text="SchemaApi.tla enumerates every history of object creation, AddType and Check/Example/GetAST/Len/UsedUserTypes/OpenAPI calls over 2-3 objects and an 8-text catalogue (valid shallow/nested/deeper, scanner/loader/checker failures, type reference). Each history is replayed sequentially in a worker process: every result is compared with the fresh-object reference, every result still held is re-read after every later call. Pools.tla (buffer pool with ReturnCopy) satisfies HeldStable/NoLiveAlias, its ReturnAlias variant is the negative control. A stride sample of histories also records pool Get/Put/return events (with buffer identity and result-memory aliasing) through the hooks; TLC validates them against PoolsTrace.",
+   text="SchemaApi.tla enumerates every history of object creation, AddType and Check/Example/GetAST/Len/UsedUserTypes/OpenAPI calls over 2-3 objects and a 13-text catalogue (valid shallow/nested/deeper, scanner/loader/checker failures, type references, an `or` rule-set with format types, an annotated object with enum/uuid/choice, value-less texts: blank and comment only). Each history is replayed sequentially in a worker process: every result is compared with the fresh-object reference, every result still held is re-read after every later call. Pools.tla (buffer pool with ReturnCopy) satisfies HeldStable/NoLiveAlias, its ReturnAlias variant is the negative control. A stride sample of histories also records pool Get/Put/return events (with buffer identity and result-memory aliasing) through the hooks; TLC validates them against PoolsTrace.",
    note="Contents limited to the catalogue; one object is the type of at most one root. When a project has two independent defects only error-vs-value is compared (which defect wins is C09)."),
  "C11": dict(
    category="model_checking", design_ref="DESIGN.md §3 C11",
    technique="TLA+ model of goroutines at hook granularity (Concurrent.tla) model-checked over all interleavings; its work assignments run free in a -race build; hook traces with goroutine ids validated by TLC (PoolsTrace)",
-   text="Concurrent.tla splits every public call at the sync.Once guard and the buffer pool (the verif hook points); TLC checks NoBufferSharedByTwoProcesses, NothingHeldOutsideCalls, ResultsAreSequential and OnceRunsOnce over all interleavings of 2 goroutines x programs of <= 2 calls (2.4M + 7.8M states). Every initial state (4800 work assignments: own objects / one shared checked object) is executed for several rounds in a race-instrumented build with GOMAXPROCS 2/4/16: no race report, results equal to sequential references, held results intact; sampled runs record hook events with goroutine ids and TLC validates them against PoolsTrace (a buffer is never handed to two goroutines, results never alias pooled memory).",
+   text="Concurrent.tla splits every public call at the sync.Once guard and the buffer pool (the verif hook points); TLC checks NoBufferSharedByTwoProcesses, NothingHeldOutsideCalls, ResultsAreSequential and OnceRunsOnce over all interleavings of 2 goroutines x programs of <= 2 calls in three modes: own objects, one shared object whose first Check() has returned, one shared fresh object (the goroutines race for the first call). Every initial state (work assignment) is executed for several rounds in a race-instrumented build with GOMAXPROCS 2/4/16: no race report, results equal to sequential references, held results intact; sampled runs record hook events with goroutine ids and TLC validates them against PoolsTrace (a buffer is never handed to two goroutines, results never alias pooled memory).",
    note="The race detector judges only the schedules that ran (free-running; gates are not imposed). Catalogue of three contents. Go race detector and sync.Pool are trusted."),
  "C09": dict(
    category="model_checking", design_ref="DESIGN.md §3 C09",
    technique="TLA+ model with explicit map-iteration nondeterminism (Determinism.tla): TLC shows confluence under sorted iteration and its failure under map iteration, and lists every (root, type set, registration order); all of them observed on the real code by repetition, fresh processes and all orders",
-   text="Determinism.tla makes every range-over-map an explicit choice; with Iteration=\"sorted\" TLC proves Confluent over all roots x <=3 of 6 types x all registration orders (942 states), with \"map\" it produces the counterexample (negative control) and marks the order-sensitive configurations. Each configuration and ~600-4000 texts for the enum, regex, JSON-document, guessing and schema entry points are observed R times in-process and in P worker processes; error (code, message, index, line, column, offending type), Len, AST, example, used types, OpenAPI, enum values, lexeme streams are compared byte-for-byte across repetitions, processes and registration orders.",
-   note="Map orders and heap addresses cannot be enumerated: a 2-way order dependence survives R repetitions with probability 2^(1-R) (R >= 40 per process on sensitive configurations). Type catalogue of six types."),
+   text="Determinism.tla makes every range-over-map an explicit choice; a type may carry several defects in source order (each `@a | @b` choice and `or` rule-set is an internal type in the same map) and the objects of a project may be used again (registered on a second root, or checked on their own first). With Iteration=\"sorted\" TLC proves Confluent and Repeatable over 4 roots x <=3 of 11 types x all registration orders x 3 reuse modes (13k configurations), with \"map\" it produces the counterexample (negative control) and marks the order-sensitive configurations. Each configuration and ~600-4000 texts for the enum, regex, JSON-document, guessing and schema entry points are observed R times in-process and in P worker processes; error (code, message, index, line, column, offending type), Len, AST, example, used types, OpenAPI, enum values, lexeme streams are compared byte-for-byte across repetitions, processes and registration orders.",
+   note="Map orders and heap addresses cannot be enumerated: a 2-way order dependence survives R repetitions with probability 2^(1-R) (R >= 40 per process on sensitive configurations). Type catalogue of eleven types."),
  "C06": dict(
    category="model_checking", design_ref="DESIGN.md §3 C06",
    technique="TLA+ type-reference graphs (TypeGraph.tla): TLC checks SelfRequiring => ~Finite on every graph and emits each graph with both predicates; graphs printed as projects and replayed (Check 104 iff demanded, Example terminates with valid JSON)",
-   text="TypeGraph.tla defines Finite (least fixpoint, choices are OR) and SelfRequiring (root reaches itself through mandatory plain references) over graphs of 3 types with up to 2 properties out of 16 kinds, and rings with chords of 4-6 types; TLC checks the theorem and fixpoint lemmas on all of them (42k quick, ~2.6M thorough) and emits every graph. Every graph with a cycle or an infinite/self-requiring root (others sampled) is printed as a project with the root registered under its own name: Check() must not return 104 when the root is finite, must return it when the root is self-requiring, and Example() of an accepted project must return RFC 8259 JSON within 5 s.",
+   text="TypeGraph.tla defines Finite (least fixpoint, choices are OR) and SelfRequiring (root reaches itself through mandatory plain references) over graphs of 3 types with up to 2 properties out of 16 kinds, 4 types with requirement edges only, rings with chords of 4-6 types, and graphs whose types may be nullable at their own root or plain/nullable aliases of another type (RootForms); TLC checks the theorem, the fixpoint lemmas and NullableRootsAreFinite on all of them (~860k quick) and emits every graph. Every graph with a cycle or an infinite/self-requiring root (others sampled) is printed as a project with the root registered under its own name: Check() must not return 104 when the root is finite, must return it when the root is self-requiring, and Example() of an accepted project must return RFC 8259 JSON within 5 s.",
    note="Key-shortcut properties are not edges. Nothing is demanded for infinite roots that are not self-requiring through plain references. The printer and the 104 classification (error code) are trusted."),
  "C01": dict(
    category="model_checking", design_ref="DESIGN.md §3 C01",
    technique="TLA+ project builder with rule semantics (SchemaModel.tla, RuleSemantics.tla, SchemaModelExtra.tla): TLC enumerates every project with its demanded verdict; each printed and Check()ed",
-   text="RuleSemantics.tla gives the documented meaning of min/max (with exclusivity), precision, minLength/maxLength, regex, minItems/maxItems over catalogues with exact decimal denotations (boundary neighbours 9.99/10/10.0/10.00/10.01/10.001, -0/0, lengths around limits, escapes) and sanity lemmas; SchemaModel.tla builds, by builder actions, every project skeleton (root, property, array item, `or` rule-set, type reference, type reference inside `or`) x value x canonical rule subset and computes the verdict over every example value (the type's own example included); SchemaModelExtra.tla does the same for enum, const, nullable, string formats and two-alternative `or`, printing the schema text in TLA+. ~100k (quick) / ~1M (thorough) projects are replayed: a violating example accepted, or a satisfying one rejected with a value-reason code, is a violation.",
+   text="RuleSemantics.tla gives the documented meaning of min/max (with exclusivity), precision, minLength/maxLength, regex, minItems/maxItems over catalogues with exact decimal denotations (boundary neighbours 9.99/10/10.0/10.00/10.01/10.001, -0/0, lengths around limits, escapes) and sanity lemmas; SchemaModel.tla builds, by builder actions, every project skeleton (root, property, array item, `or` rule-set, type reference, type reference inside `or`, reference to a type that carries the `or`) x value x canonical rule subset and computes the verdict over every example value (the type's own example included); SchemaModelExtra.tla does the same for enum, const, nullable, string formats, two-alternative `or` and `or` over the whole type vocabulary in name and rule-set form, printing the schema text in TLA+. ~225k (quick) / ~1M (thorough) projects are replayed, and 80k (600k) pairs of finished projects composed as independent parts of one root object (ComposeExpect: accepted iff both are): a violating example accepted, or a satisfying one rejected with a value-reason code, is a violation.",
    note="Accept-expected projects answered with a structural code are inconclusive (the model's compatibility table was calibrated until they are 0.01%). A value referring to a type is generated with the JSON kind of the type's example; null examples of nullable nodes have no verdict. Regex/format semantics on catalogue samples only."),
  "C03": dict(
    category="model_checking", design_ref="DESIGN.md §3 C03",
    technique="TLA+ pushdown generator of well-formed JSON documents (JsonGen.tla) with TLC-checked balance invariants; every document rendered under whitespace layouts and replayed as a schema, compared with encoding/json",
-   text="JsonGen.tla is a pushdown machine whose finished behaviours are exactly the well-formed documents (no exponents, no duplicate keys) over catalogues of scalars and keys covering every escape form, surrogate pairs, non-ASCII, -0, 0.10, empty containers; TLC checks Balanced/NoDanglingKey and emits ~50k (quick) / ~2M (thorough) documents. Each is rendered under 7 whitespace layouts (none, space, tab, LF, CRLF, CR, mixed) and given to jschema: accepted; Example() decoded order-preservingly equals the input value (keys incl. escapes, order, literals as exact decimals); GetAST() has the same shape with decoded keys and values. The repository's own RFC 8259 literals are replayed too.",
+   text="JsonGen.tla is a pushdown machine whose finished behaviours are exactly the well-formed documents (no exponents, no duplicate keys) over catalogues of scalars and keys covering every escape form, surrogate pairs, non-ASCII, -0, 0.10, empty containers; TLC checks Balanced/NoDanglingKey and emits ~50k (quick) / ~2M (thorough) documents from a deep configuration (8-17 scalars, 7 tokens, depth 3) plus a wide one (all 46 scalars - word-size edges, 30-digit numbers, escape-only strings - and all 13 keys in the four smallest document shapes). Each is rendered under 7 whitespace layouts (none, space, tab, LF, CRLF, CR, mixed) and given to jschema: accepted; Example() decoded order-preservingly equals the input value (keys incl. escapes, order, literals as exact decimals); GetAST() has the same shape with decoded keys and values. The repository's own RFC 8259 literals are replayed too.",
    note="encoding/json is the independent decoder the property names. Two non-ASCII catalogue entries are substituted by the harness (TLC cannot print non-ASCII)."),
  "C04": dict(
    category="model_checking", design_ref="DESIGN.md §3 C04",
@@ -73,7 +73,7 @@ CHECKS = {
  "C14": dict(
    category="model_checking", design_ref="DESIGN.md §3 C14",
    technique="TLA+ layout space (Layout.tla, 1620 layouts reached by toggle actions) x SchemaText.tla projects; metamorphic comparison of all observables within each orbit, plus context-free transformations of the repository corpus",
-   text="Layout.tla enumerates the presentation vectors (line ends x annotation style x quoted rule names x padding x # and ### user comments x leading/trailing blank lines); every SchemaText project is printed under the plain layout and a seeded sample (24 quick / 160 thorough) of the others: verdict and error code, AST (notes modulo blank runs), example, used types and OpenAPI JSON must be identical. Every schema-like literal of the repository's tests is compared with its CRLF, CR, leading-blank, trailing-blank and trailing-space variants.",
+   text="Layout.tla enumerates the presentation vectors (line ends x annotation style x five ways of quoting rule names - none, all, top level only, nested only, alternating - x padding x # and ### user comments x leading/trailing blank lines); every SchemaText project is printed under the plain layout and a seeded sample (24 quick / 160 thorough) of the others: verdict and error code, AST (notes modulo blank runs), example, used types and OpenAPI JSON must be identical. Every schema-like literal of the repository's tests is compared with its CRLF, CR, leading-blank, trailing-blank and trailing-space variants.",
    note="The printer only produces layouts that keep each annotated element alone on its line and comments on their own line or after an unannotated value. Texts that stop in the middle of an element (code 303) are excluded from the trailing transformations."),
  "C15": dict(
    category="model_checking", design_ref="DESIGN.md §3 C15",
@@ -83,22 +83,22 @@ CHECKS = {
  "C07": dict(
    category="model_checking", design_ref="DESIGN.md §3 C07",
    technique="TLA+ inheritance model (AllOf.tla: Merge, refusal classes, TLC-checked merge lemmas) emitting every project with its merged key list; replay on Check/Example/compiled tree/OpenAPI property listing",
-   text="AllOf.tla defines Merge (own keys then the listed types' keys, transitively, in list order, with origin and optional flag) and the refusal classes (missing, non-object, cyclic, duplicate key, conflicting additionalProperties with true = any) over a root object and 2-3 named types each withheld / non-object / object with allOf lists that may name themselves and each other; TLC checks MergeHasNoDuplicateKeys, MergeStable, NoListNoChange on all ~450k (quick) projects. Replay: refused iff a class applies, with the code of a present class; otherwise Example() keys, the compiled root's properties (key, InheritedFrom, optional) and openapi.Dereference's PropertiesInfos (keys, optional) equal the merged list.",
+   text="AllOf.tla defines Merge (own keys then the listed types' keys, transitively, in list order, with origin and optional flag) and the refusal classes (missing, non-object, cyclic, duplicate key, conflicting additionalProperties with true = any) over a root object and 2-3 named types each withheld / non-object / object with allOf lists that may name themselves and each other; an own key may itself be an heir ({ // {allOf: \"@x\"} \"n\": 0 }): nested lists take part in the refusal classes and in Merge (NestedHeirGains). TLC checks MergeHasNoDuplicateKeys, MergeStable, NoListNoChange on all ~520k (quick) projects. Replay: refused iff a class applies, with the code of a present class; otherwise Example() keys, the compiled root's properties (key, InheritedFrom, optional) and openapi.Dereference's PropertiesInfos (keys, optional) equal the merged list, nested heirs included; every project is judged on a fresh object and after a call prefix from SchemaApi_orders.cfg.",
    note="With a structural defect present a duplicate/conflict code is also accepted (the merge of the remaining objects is then undefined). Cycle-only projects are replayed 1 in 8 (quick). Inherited keys may be marked with the listed parent or the declaring type."),
  "C05": dict(
    category="model_checking", design_ref="DESIGN.md §3 C05",
    technique="TLA+ reference-position model (RefPositions.tla: Used, Reach, Missing) emitting every hygienic project x registration subset; replay on UsedUserTypes/Check with and without an unused type",
-   text="RefPositions.tla lets the root mention @a/@b/@c in all eight positions (value shortcut, @a | @b, key shortcut, type, or by name, or rule-set, allOf, additionalProperties), lets type definitions mention each other one level further, registers every subset of the definitions and optionally an unused valid type; TLC checks UsedIsReached / MissingOnlyIfWithheld and emits ~75k (quick) projects with Used and Missing. Replay: UsedUserTypes() as a set without duplicates = Used; Check() returns 1302 naming a member of Missing iff Missing is not empty; every observable is identical with and without the unused type.",
+   text="RefPositions.tla lets the root mention @a/@b/@c in all eight positions (value shortcut, @a | @b, key shortcut, type, or by name, or rule-set, allOf, additionalProperties), lets type definitions mention each other one level further, registers every subset of the definitions and optionally an unused valid type; TLC checks UsedIsReached / MissingOnlyIfWithheld and emits ~75k (quick) projects with Used and Missing. Replay: UsedUserTypes() as a set without duplicates = Used; Check() returns 1302 naming a member of Missing iff Missing is not empty; every observable is identical with and without the unused type. Every project is judged twice: on a fresh object and on one that has already answered one of the 42 call prefixes TLC enumerates from SchemaApi.tla (SchemaApi_orders.cfg).",
    note="Generator hygiene: kinds fit positions, mentions among types are acyclic, unreached registered types mention registered names only, no additionalProperties conflict through allOf."),
  "C08": dict(
    category="model_checking", design_ref="DESIGN.md §3 C08",
    technique="accepted projects enumerated by TLC from the TLA+ models (SchemaModel, SchemaModelExtra, SchemaText, AllOf, RefPositions) with RuleSemantics-derived accepted variations; OpenAPI conversions judged by an independent JSON Schema validator (jsonschema via tools/oas_validate.py)",
-   text="Programs are the accepted projects the other specifications emit (rule families on six skeletons, enum/const/nullable/formats/or, annotated objects with references, choices, key shortcuts, nested containers and escaped keys, inheritance projects, reference-position projects). For each the library produces Example(), the OpenAPI conversion of the root and of every registered type (assembled as #/components/schemas/*). The validator (jsonschema, Draft 4 vocabulary + nullable, numbers as exact decimals, hand-written OpenAPI 3.0 Schema Object meta-schema) checks well-formed JSON, well-formed Schema Object, example is an instance, and every variation that RuleSemantics says the rules accept (the other values of the same skeleton+rules group, same JSON number kind) is an instance.",
+   text="Programs are the accepted projects the other specifications emit (rule families on seven skeletons, enum/const/nullable/formats/or incl. the whole type vocabulary as `or` elements, annotated objects with references, choices, key shortcuts, nested containers and escaped keys, inheritance projects, reference-position projects). For each the library produces Example(), the OpenAPI conversion of the root and of every registered type (assembled as #/components/schemas/*). The validator (jsonschema, Draft 4 vocabulary + nullable, numbers as exact decimals, hand-written OpenAPI 3.0 Schema Object meta-schema) checks well-formed JSON, well-formed Schema Object, example is an instance, and every variation that RuleSemantics says the rules accept (the other values of the same skeleton+rules group, same JSON number kind) is an instance. SchemaApi.tla's call-history independence is asserted on every program: a second conversion and a conversion after a TLC-enumerated call prefix give the same bytes, GetAST() and Example() are unchanged by converting.",
    note="Instance-of for Schema Objects is delegated to jsonschema (DESIGN §2.5); format is an annotation. Quick tier stride-samples the programs. Known finding: the allOf conversion."),
  "C02": dict(
    category="model_checking", design_ref="DESIGN.md §3 C02",
    technique="inputs generated from the TLA+ specifications (JSchemaScan byte-class automaton with viable-prefix enumeration and TLC simulation, JsonDoc/Number/RegexDelim/EnumRule graphs, truncations and mutations of printed SchemaText projects, TypeGraph cycles) run through every public operation in isolated worker processes",
-   text="JSchemaScan.tla is a byte-class automaton of the schema language (JSON values, @references and choices, key shortcuts, # and ### comments, // and /* */ annotations with rule objects and notes) used as a generator: every viable class string up to length 4/5 (with end of input after every prefix) and TLC-simulated behaviours of 80 bytes, as root schema and as registered type; plus every class string of the JsonDoc, Number, RegexDelim automata, EnumRule token paths with every truncation, every truncation and seeded single-byte mutations of printed SchemaText projects, reference cycles in every position (TypeGraph graphs and listed cases, root registered under its own name), nesting/size to 10^4 (10^6 thorough), extreme exponents. Each case runs Len, Check, Example (also before Check), GetAST, UsedUserTypes, AddType, AddRule, NextLexeme, Values, NewNumber, GuessSchemaType and OpenAPI/Dereference of accepted schemas in worker processes: an escaped panic, a dead worker (stack overflow, fatal error) or no answer in 3 s (15 s for large inputs) is a violation.",
+   text="JSchemaScan.tla is a byte-class automaton of the schema language (JSON values, @references and choices, key shortcuts, # and ### comments, // and /* */ annotations with rule objects and notes) used as a generator: every viable class string up to length 4/5 (with end of input after every prefix) and TLC-simulated behaviours of 80 bytes, as root schema and as registered type; plus every class string of the JsonDoc, Number, RegexDelim automata, EnumRule token paths with every truncation, every truncation and seeded single-byte mutations of printed SchemaText projects, reference cycles in every position (TypeGraph graphs and listed cases, root registered under its own name), CycleGraph.tla's cyclic mention graphs (one mention per type in any fitting position), nesting/size to 10^4 (10^6 thorough), extreme exponents, and pumped variants of the generated texts (one byte replaced by a run of its class: malformed and truncated UTF-8, multi-byte characters, escapes, digits). Each case runs Len, Check, Example (also before Check), GetAST, UsedUserTypes, AddType, AddRule, NextLexeme, Values, NewNumber, GuessSchemaType and OpenAPI/Dereference of accepted schemas in worker processes: an escaped panic, a dead worker (stack overflow, fatal error) or no answer in 3 s (15 s for large inputs) is a violation.",
    note="JSchemaScan is a generator, not an acceptance oracle (DESIGN §2.1). Bounded time is a wall-clock bound; stack depth is explored to the stated nesting, not proved."),
  "C16": dict(
    category="model_checking", design_ref="DESIGN.md §3 C16",
